@@ -23,6 +23,33 @@ Inductive fcall :=
 (* what a call returned: message (nil = None) and gRPC code (0 = no error) *)
 Record fout := mkFO { fo_msg : option fmsg; fo_code : Z }.
 
+(* ---------- the configuration the resource was CONSTRUCTED with ----------
+   The equivalence (resource.WithEquivalence / WithMessageEquivalence / WithNoDuplicates) of the shared
+   Value and Collection.  It is the Pull de-duplication comparer and is usually NOT exact (electric demand
+   and fan speed use a float tolerance; others ignore time fields):
+     CqExact      WithNoDuplicates: proto.Equal
+     CqField f    only field f is compared (every other field is ignored)
+     CqTol f k    field f may differ by at most k, the other fields must be equal *)
+Inductive ceqv := CqExact | CqField (f : fld) | CqTol (f : fld) (k : Z).
+
+Definition ceqv_msg (e : ceqv) (a b : fmsg) : bool :=
+  match e with
+  | CqExact => fmsg_eqb a b
+  | CqField f => getf f a =? getf f b
+  | CqTol f k => (Z.abs (getf f a - getf f b) <=? k) && fmsg_eqb (setf f 0 a) (setf f 0 b)
+  end.
+Definition interp_ceqv (e : ceqv) (x y : option fmsg) : bool :=
+  match x, y with
+  | Some a, Some b => ceqv_msg e a b
+  | None, None => true
+  | _, _ => false
+  end.
+(* the other construction-time options are arguments of the cases already: the id interceptor (idf), an
+   absent initial value (vinit = None), the initial contents *)
+Record fcfg := mkCfg { cf_equiv : option ceqv }.
+Definition cfg_eq (cfg : fcfg) : option (option fmsg -> option fmsg -> bool) := option_map interp_ceqv (cf_equiv cfg).
+Definition cfg_default := mkCfg None.
+
 Inductive ccase :=
 (* a forced schedule: thread t runs prog[t]; results[t] is what it returned; finals are Get / List
    taken when all threads have returned; streams are what each subscriber thread received up to
@@ -46,7 +73,12 @@ Inductive ccase :=
    number of times its created callback was invoked *)
 | CaseGen (idf : option idf) (cinit : list (string * fmsg * Z)) (prog : list fcall) (cands : list (list string))
           (sched : list nat) (results : list fout) (reported : list (list string)) (created : list Z)
-          (final_c : list (string * fmsg)).
+          (final_c : list (string * fmsg))
+(* CaseSched on resources constructed with the configuration cfg (no subscribers without backpressure) *)
+| CaseCfg (cfg : fcfg) (idf : option idf) (vinit : option fmsg) (cinit : list (string * fmsg * Z))
+          (prog : list fcall) (sched : list nat)
+          (results : list fout) (final_v : option fmsg) (final_c : list (string * fmsg))
+          (vstreams : list (nat * list ovchange)) (cstreams : list (nat * list ochange)) (closed : list nat).
 
 (* ---------- instantiation ---------- *)
 Notation lcall := (call fmsg fwriter (list fld)).
@@ -100,6 +132,16 @@ Definition vstream_of (u : vsub fmsg (list fld)) : list (vchange fmsg) :=
   pull_value fr_filter None (vs_at u) (vs_ro u) (vs_evs u).
 Definition cstream_of (u : csub fmsg (list fld)) : list (cchange fmsg) :=
   pull_collection fr_filter None (cs_at u) (cs_ro u) (cs_evs u).
+
+(* the same on a resource constructed with an equivalence: Value.Pull compares with the last value sent,
+   Collection.Pull with the value the subscriber holds for the id (Resource/Pull.v) *)
+Definition vstream_of_eq (eq : option (option fmsg -> option fmsg -> bool)) (u : vsub fmsg (list fld)) : list (vchange fmsg) :=
+  pull_value fr_filter eq (vs_at u) (vs_ro u) (vs_evs u).
+Definition cstream_of_eq (eq : option (option fmsg -> option fmsg -> bool)) (u : csub fmsg (list fld)) : list (cchange fmsg) :=
+  match eq with
+  | None => cstream_of u
+  | Some _ => pull_collection_held fr_filter eq (cs_at u) (cs_ro u) (cs_evs u)
+  end.
 
 Definition final_list (c : cstate fmsg) : list (string * fmsg) := c_list fr_filter c None None.
 
@@ -203,9 +245,13 @@ Definition f_grun (i : option idf) (prog : list fcall) (cands : list (list strin
 Fixpoint all_upto (n : nat) (f : nat -> bool) : bool :=
   match n with O => true | S k => f k && all_upto k f end.
 
-Definition agrees (c : ccase) : bool :=
-  match c with
-  | CaseSched i vinit cinit prog sched results fv fc vstreams cstreams closed =>
+(* a forced schedule against the model; eq = the equivalence the resources were constructed with.  The
+   WRITE side of the comparison (results, final reads, number of steps) does not mention eq: the model of the
+   write path has no equivalence in it.  Only what subscribers receive depends on it. *)
+Definition agrees_sched (eq : option (option fmsg -> option fmsg -> bool))
+           (i : option idf) (vinit : option fmsg) (cinit : list (string * fmsg * Z)) (prog : list fcall) (sched : list nat)
+           (results : list fout) (fv : option fmsg) (fc : list (string * fmsg))
+           (vstreams : list (nat * list ovchange)) (cstreams : list (nat * list ochange)) (closed : list nat) : bool :=
       let '(s, ls) := f_lrun model_v0 i prog sched vinit cinit in
       (Nat.eqb (st_stutter s) 0) && all_done s &&
       list_match pc_matches (st_pcs s) results &&
@@ -213,7 +259,7 @@ Definition agrees (c : ccase) : bool :=
       list_eqb kv_eqb (final_list (w_c (st_w s))) fc &&
       (Nat.eqb (List.length (st_vsubs s) + List.length (st_csubs s)) (List.length vstreams + List.length cstreams)) &&
       forallb (fun u => match assoc_nat (vs_tid u) vstreams with
-                        | Some obs => list_match vc_matches (vstream_of u) obs
+                        | Some obs => list_match vc_matches (vstream_of_eq eq u) obs
                         | None => false end) (st_vsubs s) &&
       (* every subscriber without backpressure has its pipeline, compared change by change *)
       forallb (fun u => negb (is_lossy (cs_tid u) prog) || existsb (fun l => Nat.eqb (ls_tid l) (cs_tid u)) ls) (st_csubs s) &&
@@ -223,17 +269,28 @@ Definition agrees (c : ccase) : bool :=
                  match pull_id_of (cs_tid u) prog with
                  | Some id =>
                      (* PullID: the collection stream restricted to the id, ended by its removal *)
-                     let '(vs, cl) := pull_id_from (apply_id (idfun_of i) id) (cstream_of u) in
+                     let '(vs, cl) := pull_id_from (apply_id (idfun_of i) id) (cstream_of_eq eq u) in
                      match assoc_nat (cs_tid u) vstreams with
                      | Some obs => list_match vc_matches vs obs && Bool.eqb cl (existsb (Nat.eqb (cs_tid u)) closed)
                      | None => false
                      end
                  | None =>
                      match assoc_nat (cs_tid u) cstreams with
-                     | Some obs => list_match cc_matches (cstream_of u) obs
+                     | Some obs => list_match cc_matches (cstream_of_eq eq u) obs
                      | None => false
                      end
-                 end) (st_csubs s)
+                 end) (st_csubs s).
+
+Definition has_lossy (prog : list fcall) : bool :=
+  existsb (fun c => match c with FSubL _ _ => true | _ => false end) prog.
+
+Definition agrees (c : ccase) : bool :=
+  match c with
+  | CaseSched i vinit cinit prog sched results fv fc vstreams cstreams closed =>
+      agrees_sched None i vinit cinit prog sched results fv fc vstreams cstreams closed
+  | CaseCfg cfg i vinit cinit prog sched results fv fc vstreams cstreams closed =>
+      negb (has_lossy prog) &&
+      agrees_sched (cfg_eq cfg) i vinit cinit prog sched results fv fc vstreams cstreams closed
   | CaseHist _ _ _ _ _ _ => true      (* no schedule to compare: judged by the oracle alone *)
   | CaseFree _ _ _ _ _ _ _ _ _ _ => true
   | CaseGen i cinit prog cands sched results reported created fc =>
@@ -397,6 +454,9 @@ Definition C02_ok (c : ccase) : bool :=
   | CaseHist i vinit cinit hist fv fc =>
       linearizable_b i vinit cinit (map (fun p => mkH (fst (fst (fst p))) (snd (fst (fst p))) (snd (fst p)) (snd p)) hist) fv fc
   | CaseFree _ _ _ _ _ _ _ _ _ _ => true
+  (* the configured equivalence is NOT an argument of the predicate: the sequential reference has none *)
+  | CaseCfg _ i vinit cinit prog sched results fv fc _ _ _ =>
+      linearizable_b i vinit cinit (hist_of 0 prog results sched) fv fc
   | CaseGen i cinit prog cands sched results reported created fc =>
       linearizable_b i None cinit (hist_of 0 (subst_reported i 0 prog reported) results sched) None fc &&
       gen_ok i 0 prog cands results reported &&
@@ -465,6 +525,7 @@ Definition C03_ok (c : ccase) : bool :=
       c03_pred i prog fv fc vstreams cstreams closed
   | CaseHist _ _ _ _ _ _ => true
   | CaseGen _ _ _ _ _ _ _ _ _ => true
+  | CaseCfg _ _ _ _ _ _ _ _ _ _ _ _ => true     (* with an equivalence the stream is C04's subject *)
   end.
 
 (* Known finding C03/1 (a publication overtook an earlier commit: Set and Update published after
